@@ -81,8 +81,16 @@ def gen_resp_plan(r, token: bytes, method="GET", opts=None):
         fh = [b"Content-Length", b"%d" % r.randint(0, 5000)]
     if fh is not None:
         hdrs.insert(r.randint(0, len(hdrs)), fh)
+    early = None
+    if o.get("p_early") and method in ("POST", "PUT", "PATCH") and r.random() < o["p_early"]:
+        # HTTP/1.1: the server answers as soon as it has the request head, before the
+        # body has arrived, and either goes on reading the body or - saying so in the
+        # response - closes the connection
+        early = r.choice([True, True, "close"])
     conn_close = (framing != "close" and not http10
                   and r.random() < o.get("p_conn_close", 0.1))
+    if early == "close" and framing != "close" and not http10:
+        conn_close = True
     if conn_close:
         hdrs.insert(r.randint(0, len(hdrs)), [b"Connection", b"close"])
     lines = []
@@ -119,6 +127,8 @@ def gen_resp_plan(r, token: bytes, method="GET", opts=None):
         plan["interim"] = r.choice([[100], [103], [102, 103], [103, 103, 100]])
     if r.random() < o.get("p_think", 0.3):
         plan["think"] = r.choice([0.001, 0.01, 0.05, 0.2])
+    if early is not None:
+        plan["early"] = early
     cm = r.random()
     if cm < o.get("p_cut", 0.3):
         plan["cutmode"] = "random"
